@@ -403,7 +403,7 @@ def skeleton_body(chain, exit_kind, pos):
     target = None
     if exit_kind.startswith("lbreak") or exit_kind.startswith("lcontinue"):
         target = int(exit_kind[-1])
-        if target >= len(chain):
+        if target >= len(chain) or chain[target] == "block":   # a labelled plain block is the construct "label"
             return None
     body = inner
     for lvl in range(len(chain) - 1, -1, -1):
